@@ -50,6 +50,42 @@ func genRaw(r *rng.R) []byte {
 	return b
 }
 
+// genTail: a harmless prefix followed by one instruction whose operand is cut
+// short at every possible length (decoder bounds inside Step).
+func genTail(r *rng.R) []byte {
+	var b []byte
+	for range r.Intn(4) {
+		b = append(b, []byte{byte(opcode.NOP), byte(opcode.PUSH1), byte(opcode.PUSHNULL), byte(opcode.PUSHT)}[r.Intn(4)])
+	}
+	var op opcode.Opcode
+	for {
+		op = validOps[r.Intn(len(validOps))]
+		if operandLen(op) != 0 {
+			break
+		}
+	}
+	b = append(b, byte(op))
+	ol := operandLen(op)
+	var full []byte
+	switch op {
+	case opcode.PUSHDATA1:
+		l := r.Intn(5)
+		full = append([]byte{byte(l)}, r.Bytes(l)...)
+	case opcode.PUSHDATA2:
+		l := r.Intn(5)
+		full = append([]byte{byte(l), 0}, r.Bytes(l)...)
+	case opcode.PUSHDATA4:
+		l := r.Intn(5)
+		full = append([]byte{byte(l), 0, 0, 0}, r.Bytes(l)...)
+	default:
+		full = make([]byte, ol)
+		for i := range full {
+			full[i] = byte(r.Intn(4))
+		}
+	}
+	return append(b, full[:r.Intn(len(full)+1)]...)
+}
+
 // genStream: a well-formed instruction stream with random operands (jump
 // offsets are small, so a good share passes the static check and has real
 // control flow).
@@ -152,13 +188,16 @@ func mutate(r *rng.R, s []byte, other []byte) []byte {
 		default:
 			// instruction-aware: rewrite the operand (or the opcode) of one decoded instruction
 			var at []int
-			ctx := scparser.NewContext(b, 0)
-			for ctx.NextIP() < len(b) {
-				at = append(at, ctx.NextIP())
-				if _, _, err := ctx.Next(); err != nil {
-					break
+			func() {
+				defer func() { _ = recover() }()
+				ctx := scparser.NewContext(b, 0)
+				for ctx.NextIP() < len(b) {
+					at = append(at, ctx.NextIP())
+					if _, _, err := ctx.Next(); err != nil {
+						break
+					}
 				}
-			}
+			}()
 			if len(at) == 0 {
 				break
 			}
@@ -320,6 +359,19 @@ func buildIdioms() []idiom {
 	add("items-popitem-loop", newAsm().push(1000).ops(opcode.NEWARRAY, opcode.DUP).label("L").ops(opcode.DUP, opcode.POPITEM, opcode.DROP, opcode.DUP, opcode.SIZE, opcode.PUSH0).jmp(opcode.JMPGT, "L").ops(opcode.SIZE))
 	add("items-remove-loop", newAsm().push(600).ops(opcode.NEWSTRUCT, opcode.DUP, opcode.DUP).label("L").ops(opcode.DUP, opcode.PUSH0, opcode.REMOVE, opcode.DUP, opcode.SIZE, opcode.PUSH0).jmp(opcode.JMPGT, "L").ops(opcode.CLEARITEMS))
 	add("items-packmap", newAsm().ops(opcode.NEWARRAY0, opcode.PUSH1, opcode.NEWARRAY0, opcode.PUSH1, opcode.PUSHT, opcode.PUSH2, opcode.PUSH2, opcode.PUSHT, opcode.PUSH4, opcode.PACKMAP, opcode.DUP, opcode.UNPACK))
+
+	// --- compounds with a single reference consumed in place
+	mk := func() *asm {
+		return newAsm().ops(opcode.NEWSTRUCT0, opcode.PUSH1, opcode.NEWARRAY0, opcode.PUSH2, opcode.PUSH5, opcode.PUSH3, opcode.PUSH3, opcode.PACKMAP)
+	}
+	for _, o := range []opcode.Opcode{opcode.VALUES, opcode.KEYS, opcode.UNPACK, opcode.CLEARITEMS, opcode.SIZE} {
+		add("single-ref-map", mk().op(o).ops(opcode.DEPTH, opcode.PACK, opcode.DROP))
+		add("single-ref-array", newAsm().ops(opcode.NEWSTRUCT0, opcode.DUP, opcode.NEWARRAY0, opcode.PUSH7, opcode.PUSH4, opcode.PACK).op(o).ops(opcode.DEPTH, opcode.PACK, opcode.DROP))
+		add("single-ref-struct", newAsm().ops(opcode.NEWSTRUCT0, opcode.DUP, opcode.NEWARRAY0, opcode.PUSH7, opcode.PUSH4, opcode.PACKSTRUCT).op(o).ops(opcode.DEPTH, opcode.PACKSTRUCT, opcode.DUP, opcode.VALUES))
+	}
+	add("single-ref-popitem", newAsm().ops(opcode.NEWARRAY0, opcode.NEWSTRUCT0, opcode.PUSH2, opcode.PACK, opcode.POPITEM, opcode.DROP))
+	add("single-ref-setitem-struct", newAsm().ops(opcode.PUSH1, opcode.PUSH1, opcode.PACKSTRUCT, opcode.PUSH0, opcode.PUSH1, opcode.PUSH1, opcode.PACKSTRUCT, opcode.SETITEM))
+	add("packmap-duplicate-keys", newAsm().ops(opcode.NEWARRAY0, opcode.PUSH1, opcode.NEWSTRUCT0, opcode.PUSH1, opcode.NEWMAP, opcode.PUSH1, opcode.PUSH3, opcode.PACKMAP, opcode.DUP, opcode.VALUES))
 
 	// --- integer width
 	for _, v := range []*big.Int{max, minv, new(big.Int).Sub(max, big.NewInt(1)), new(big.Int).Add(minv, big.NewInt(1)), pow2(254), pow2(128), pow2(127)} {
